@@ -1,0 +1,8 @@
+//! Verification hooks (cargo feature `verif-hooks`, off by default).
+//!
+//! Nothing in here changes the behaviour of the crate; the module only makes otherwise private
+//! pieces reachable for the conformance harness.
+
+/// The allocator interface of the collections, so that a harness can plug in a counting /
+/// failing allocator.
+pub use crate::alloc::{AllocError, AllocProxy, Allocator, CaoLangAllocator, SysAllocator};
